@@ -31,6 +31,7 @@ class Fn:
         final_guards=0,
         hoist=None,
         macros=None,
+        fragment=None,
     ):
         self.file = file
         self.path = path if isinstance(path, list) else [p.strip() for p in path.split("::")]
@@ -62,6 +63,10 @@ class Fn:
         self.hoist = hoist
         # R12: [(macro name, file, item path)]: invocations are expanded in place from the real macro_rules!
         self.macros = macros or []
+        # R13: dict(start, sig, tail): ONE statement of the function (from the literal `start` to the end of
+        # that statement) is emitted as a function of its own: `sig { <statement> <tail> }`. Everything
+        # else of the function is dropped (and said so in the evidence).
+        self.fragment = fragment
 
 
 class Type:
@@ -128,6 +133,8 @@ def emit(unit):
         orig = sf.text[a:b]
         label = "%s :: %s" % (it.file, " :: ".join(it.path))
         rw = Rewriter(orig, label)
+        if isinstance(it, Fn) and it.fragment:
+            rw.take_fragment(it.fragment["start"], it.fragment["sig"], it.fragment.get("tail", ""))
         rw.strip_docs_and_attrs()
         rw.strip_pub()
         for mname, mfile, mpath in getattr(it, "macros", []) or []:
